@@ -528,6 +528,10 @@ class Engine(Interp):
         m = self.models.get(name)
         if m is None and callee['resolved'] == 'unresolved':
             m = self.models.get('?' + callee['def'])
+        if m is None and callee.get('rcrate') == 'core' and callee.get('trait') == ITER_TRAIT \
+                and name.startswith('<core::slice::iter::Iter'):
+            # core's slice iterators override provided Iterator methods with equivalent specialisations
+            m = self.models.get(callee['def'])
         if m is not None:
             self.stats['model_calls'] += 1
             return m(self, st, fid, t, args, dest_ty)
